@@ -109,6 +109,32 @@ def install():
         return ret
     TaskEventsManager.process_message = process_message
 
+    # JOB FILE FAULTS -------------------------------------------------------
+    # A planned submission failure is realised, for a deterministic third of
+    # the jobs concerned, as an I/O error while the job file is written
+    # (disk full / unwritable job directory) instead of a failing
+    # jobs-submit command: the "(prepare job file)" error path.
+    from cylc.flow.job_file import JobFileWriter
+    orig_write = JobFileWriter.write
+
+    @functools.wraps(orig_write)
+    def write(self, local_job_file_path, job_conf, check_syntax=True):
+        drv = DRV
+        jid = str(job_conf.get('job_d', ''))
+        try:
+            p, n, num = jid.split('/')
+            plan = drv.world.plan_for(p, n, int(num)) if drv else None
+        except Exception:
+            plan = None
+        if plan is not None and not plan['submit_ok'] and \
+                drv.case.get('prep_faults', True):
+            from vlib.core.ctx import stable_hash
+            if stable_hash([drv.case.get('seed'), jid, 'prep']) % 3 == 0:
+                _emit('PREP_FAULT', job=jid)
+                raise OSError(28, 'No space left on device (injected)')
+        return orig_write(self, local_job_file_path, job_conf, check_syntax)
+    JobFileWriter.write = write
+
     # PREP ------------------------------------------------------------------
     orig_submit = TaskJobManager.submit_task_jobs
 
